@@ -87,7 +87,8 @@ def _n(ch, lo=-200, hi=200):
 
 
 def _paint(ch):
-    return {"fill": ch.choice(COLORS), "stroke": ch.choice(COLORS), "sw": ch.choice([None, 1, 2.5, 0.5]), "tr": ch.choice(MATS + ["", ""]), "id": ch.choice([None, "a1", "obj"])}
+    # a translation with units stays a Length inside the matrix until it is rendered
+    return {"fill": ch.choice(COLORS), "stroke": ch.choice(COLORS), "sw": ch.choice([None, 1, 2.5, 0.5]), "tr": ch.choice(MATS + ["", "", "translate(1cm, 2mm)", "translate(10%, 5%)"]), "id": ch.choice([None, "a1", "obj"])}
 
 
 def _shape_spec(ch, kind):
@@ -391,7 +392,10 @@ def public_nodes(se, root, limit=400):
             if id(o) in out:
                 continue
             out[id(o)] = (path, o)
-        if isinstance(o, se.PathSegment):
+        if isinstance(o, se.Matrix):
+            for name in ("e", "f"):
+                stack.append((path + "." + name, getattr(o, name), depth + 1))
+        elif isinstance(o, se.PathSegment):
             for name in ("start", "end", "control", "control1", "control2", "center", "prx", "pry"):
                 if hasattr(o, name):
                     stack.append((path + "." + name, getattr(o, name), depth + 1))
